@@ -598,6 +598,26 @@ let cmd_mpdiag args =
         | ds -> emit ("diags " ^ Stdlib.String.concat " ; " (List.map (fun (k, sp) -> dkind_name k ^ "||" ^ span_list [sp]) ds))))
   | _ -> failwith "mpdiag: bad arguments"
 
+(* mstderr <features> <file name hex> <user text hex>: what hclrs writes on standard error for this file, computed by the
+   model from the text alone (FullDiag.front_errors, then the model renderer): one "block <hex>" per error in the
+   model's order, "accepted", or "none" (a text that needs LR error recovery / an unmodelled lexical-error context) *)
+let cmd_mstderr args =
+  match args with
+  | [feat; fname; h] ->
+    let tiers = match gen_tiers with Some t -> t | None -> [] in
+    let pre = str_bytes gen_preamble in
+    let user = bytes_of (hex_decode h) in
+    (match front_errors (fun l -> l) test_uclass tiers (features_of feat) gen_fixed test_lower test_upper (pre @ user) with
+     | None -> emit "none"
+     | Some [] -> emit "accepted"
+     | Some es ->
+       let fc = new_from_data pre user (bytes_of (hex_decode fname)) in
+       List.iter (fun e ->
+           match render_all test_uclass fc [e] with
+           | Some t -> emit ("block " ^ hex_encode (ostr t))
+           | None -> emit "block none") es)
+  | _ -> failwith "mstderr: bad arguments"
+
 (* lex <texthex> *)
 let token_str (t : token) : Stdlib.String.t =
   match t with
@@ -710,6 +730,7 @@ let dispatch cmd args =
   | "mrender" -> cmd_mrender args
   | "mfrontsp" -> cmd_mfrontsp args
   | "mpdiag" -> cmd_mpdiag args
+  | "mstderr" -> cmd_mstderr args
   | "region" -> cmd_mregion args
   | "mvalid" -> cmd_mvalid args
   | _ -> emit ("unknown command " ^ cmd)
